@@ -143,7 +143,11 @@ def valid_operand_dtypes(kind, arity, tier):
     # numpy.sign and numpy.isfinite accept complex operands (sign(z) = z / |z| stays complex)
     dom = FLOATS if kind in real_only else FLOATS + COMPLEXES
     if kind in ("logical_and", "logical_or", "logical_not", "logical_xor"):
-        dom = ["bool"]
+        # booleans, and - since nothing stops a graph from applying them to numbers - float operands of one width
+        yield ("bool",) * arity
+        for d in FLOATS:
+            yield (d,) * arity
+        return
     if kind == "select":
         for c in itertools.product(dom, repeat=2):
             yield ("bool",) + c
